@@ -297,6 +297,12 @@ func genEngineCase(r *hx.RNG, engine string, small bool) engCase {
 	case r.Chance(1, 10):
 		c.Min = r.Range(1, 255)
 		c.Max = r.Range(c.Min, 255)
+		if r.Bool() {
+			c.Max = 255 // the last TTL an 8-bit counter can hold: MaxTTL + 1 does not fit
+			if r.Bool() {
+				c.Min = r.Range(1, 3)
+			}
+		}
 	default:
 		c.Min = r.Range(1, 4)
 		c.Max = c.Min + r.Range(0, 12)
